@@ -62,6 +62,7 @@ type fakeStream struct {
 	srv      *fakeServer
 	id       int
 	broken   bool
+	silent   bool // no longer reaches the server; Send returns nil, Recv keeps blocking
 	brokenCh chan struct{}
 	msgs     []msg
 }
@@ -147,6 +148,11 @@ func (f *fakeServer) answerNSLocked(ok bool) bool {
 }
 
 func (f *fakeServer) deliverLocked(st *fakeStream, m msg, lossy bool) error {
+	if st.silent && !st.broken {
+		// into the socket buffer of a connection that died without FIN/RST
+		f.logLocked("sendLost", "sub", m.Sub, "unsub", m.Unsub, "stream", st.id)
+		return nil
+	}
 	if st.broken {
 		if lossy {
 			f.logLocked("sendLost", "sub", m.Sub, "unsub", m.Unsub, "stream", st.id)
@@ -204,12 +210,37 @@ func (f *fakeServer) failStreamLocked() bool {
 	return true
 }
 
-func (f *fakeServer) upLocked() bool { return f.cur != nil && !f.cur.broken }
+// silentLocked makes the current stream go silent: nothing errors, nothing is delivered.
+func (f *fakeServer) silentLocked() bool {
+	if f.cur == nil || f.cur.broken || f.cur.silent {
+		return false
+	}
+	f.cur.silent = true
+	f.logLocked("silent", "stream", f.cur.id)
+	return true
+}
+
+// detectLocked is the transport's keepalive: the silent stream starts to fail.
+func (f *fakeServer) detectLocked() bool {
+	if f.cur == nil || f.cur.broken || !f.cur.silent {
+		return false
+	}
+	f.cur.broken = true
+	close(f.cur.brokenCh)
+	f.retryOutstanding = true
+	f.logLocked("detect", "stream", f.cur.id)
+	return true
+}
+
+func (f *fakeServer) upLocked() bool { return f.cur != nil && !f.cur.broken && !f.cur.silent }
+
+func (f *fakeServer) silentNowLocked() bool { return f.cur != nil && !f.cur.broken && f.cur.silent }
 
 // setAutoLocked switches to auto mode and resolves what is pending favourably.
 func (f *fakeServer) setAutoLocked() {
 	f.auto = true
 	f.releaseSendLocked(false)
+	f.detectLocked() // the keepalive eventually fires
 	f.answerNSLocked(true)
 }
 
